@@ -48,7 +48,7 @@ func c19(c *Ctx) {
 				continue
 			}
 			if b, ok := strip(r.Results[0]).(*ssa.BinOp); ok {
-				c.Expect(b.Op == token.LEQ && FieldLoad(fTok)(b.X) && FieldLoad(fThr)(b.Y), r, th, "verdict-is-tokens<=thresh", "the throttling verdict is not tokens <= thresh")
+				c.Expect(BinOpV(token.LEQ, FieldLoad(fTok), FieldLoad(fThr))(b), r, th, "verdict-is-tokens<=thresh", "the throttling verdict is not tokens <= thresh")
 				if dec != nil {
 					c.Expect(instrDominates(dec, b), r, th, "verdict-after-debit", "the verdict is computed before the token is removed")
 				}
